@@ -65,11 +65,38 @@ IsGlobalOp(op) == \/ op \in {"storeg", "pushrefg", "initarrg", "storeidxg"}
 IsIdx(op) == (Len(op) >= 8 /\ SubSeq(op, 1, 7) = "readidx") \/ op \in {"storeidxl", "storeidxg"}
 VarIndex(ins) == ArgNum(ins, 1) + (IF IsIdx(ins.op) THEN ArgNum(ins, 2) ELSE 0)
 
+\* ---- storage needed by the declarations the listing shows (.types, .globals, .routines) -------------
+\* C.decl = [types: seq of [n, fields: seq of type names],
+\*           globals: seq of declarations, routines: seq of [n, p (number of parameters), v (declared locals size),
+\*           vars: seq of declarations]];  a declaration is [t (type name), dims (seq of <<lo, hi>>), dyn (array without bounds)]
+Builtin == {"integer", "long", "single", "double", "string"}
+RECURSIVE TypeCells(_, _)
+TypeCells(t, fuel) ==
+    IF t \in Builtin \/ fuel = 0 THEN 1
+    ELSE LET ks == {k \in 1..Len(C.decl.types) : C.decl.types[k].n = t} IN
+         IF ks = {} THEN 1
+         ELSE LET ty == C.decl.types[CHOOSE k \in ks : TRUE]
+                  RECURSIVE FieldSum(_)
+                  FieldSum(i) == IF i > Len(ty.fields) THEN 0 ELSE TypeCells(ty.fields[i], fuel - 1) + FieldSum(i + 1)
+              IN FieldSum(1)
+RECURSIVE Extent(_, _)
+Extent(dims, i) == IF i > Len(dims) THEN 1 ELSE (dims[i][2] - dims[i][1] + 1) * Extent(dims, i + 1)
+DeclCells(d) == IF d.dyn THEN 1                                  \* a reference to storage allocated at run time
+                ELSE IF d.dims = <<>> THEN TypeCells(d.t, 6)
+                ELSE 3 + 2 * Len(d.dims) + Extent(d.dims, 1) * TypeCells(d.t, 6)
+RECURSIVE SumCells(_, _)
+SumCells(ds, i) == IF i > Len(ds) THEN 0 ELSE DeclCells(ds[i]) + SumCells(ds, i + 1)
+\* every parameter is one cell (a reference); the locals are the declarations after the parameters
+FrameDeclOK(r) == r.p >= 0 /\ r.p <= Len(r.vars) /\ r.v = SumCells(r.vars, r.p + 1)
+
 Structural ==
     IF \E i \in 1..Len(code) : code[i].op \in {"jmp", "jz", "call"} /\ ArgNum(code[i], 1) \notin Starts THEN "jump-target"
     ELSE IF \E i \in 1..Len(code) : code[i].op = "errhand" /\ ArgNum(code[i], 1) \notin (Starts \cup {0, 1}) THEN "errhand-target"
     ELSE IF \E i \in 1..Len(code) : IsLocalOp(code[i].op) /\ VarIndex(code[i]) >= FrameCells(i) THEN "local-outside-frame"
     ELSE IF \E i \in 1..Len(code) : IsGlobalOp(code[i].op) /\ VarIndex(code[i]) >= C.ld.nglob THEN "global-outside-area"
+    \* every routine's frame declaration equals the storage its parameters and locals need, and so does the global area
+    ELSE IF \E k \in 1..Len(C.decl.routines) : ~FrameDeclOK(C.decl.routines[k]) THEN "frame-declaration"
+    ELSE IF C.ld.nglob # SumCells(C.decl.globals, 1) THEN "global-size"
     ELSE IF \E i \in 1..Len(code) : code[i].op = "push$" /\ ArgNum(code[i], 1) >= nlit THEN "literal-index"
     \* the listing: same mnemonics in the same order; a label operand is the address of the
     \* instruction that follows the label in the listing
